@@ -9,9 +9,33 @@ import (
 	"net/http"
 	"net/http/httptest"
 	"net/url"
+	"os"
 	"strings"
 	"testing"
+	"time"
+
+	"github.com/bluenviron/mediamtx/internal/logger"
 )
+
+type vC35Log struct{}
+
+func (vC35Log) Log(logger.Level, string, ...any) {}
+
+// vC35ChainCall sends a request with this URL.Path through the whole handler chain a httpp.Server builds
+// (tracker, write timeout, exit-on-panic, logger, filter, server header, origin) and tells whether the
+// application handler behind it was reached.
+func vC35ChainCall(chain http.Handler, reached *bool, p string) (passed bool, status int, panicked bool) {
+	defer func() {
+		if r := recover(); r != nil {
+			panicked = true
+		}
+	}()
+	*reached = false
+	w := httptest.NewRecorder()
+	chain.ServeHTTP(w, &http.Request{Method: "GET", URL: &url.URL{Path: p}, Header: http.Header{}, Body: http.NoBody,
+		Proto: "HTTP/1.1", ProtoMajor: 1, ProtoMinor: 1, RemoteAddr: "127.0.0.1:4321", Host: "localhost"})
+	return *reached, w.Code, false
+}
 
 func vC35FilterCall(p string) (passed bool, status int, panicked bool) {
 	defer func() {
@@ -73,6 +97,23 @@ func TestVerifC35Filter(t *testing.T) {
 	out := vOpenOut()
 	defer out.Close()
 	n := vN()/2 + 20
+	reached := false
+	srv := &Server{
+		Address:      fmt.Sprintf("127.0.0.1:%d", 30000+(os.Getpid()%250)*100+31),
+		ReadTimeout:  10 * time.Second,
+		WriteTimeout: 10 * time.Second,
+		Handler: http.HandlerFunc(func(w http.ResponseWriter, _ *http.Request) {
+			reached = true
+			w.WriteHeader(http.StatusNoContent)
+		}),
+		Parent: vC35Log{},
+	}
+	if err := srv.Initialize(); err != nil {
+		t.Fatalf("httpp server: %v", err)
+	}
+	defer srv.Close()
+	chain := srv.inner.Handler
+
 	fixed := []string{"", "/", "//", "*", "x", "/x", "x/", "\\", "/\\", "\x00", "\xff/", "/\xff", " /", "%2F", ".", "..", "/.."}
 	alphabet := []byte("//..ab\n\x00\xff\\%*")
 	for i := 0; i < n; i++ {
@@ -96,6 +137,16 @@ func TestVerifC35Filter(t *testing.T) {
 					p = "/" + p
 				}
 			}
+		}
+		if i%2 == 1 || i < 2*len(fixed) && i >= len(fixed) {
+			if i < 2*len(fixed) && i >= len(fixed) {
+				p, class = fixed[i-len(fixed)], "fixed"
+			}
+			passed, status, panicked := vC35ChainCall(chain, &reached, p)
+			out.Case(cqApp("CFilter", vC35Q(p), cqBool(passed), cqBool(panicked)),
+				map[string]any{"func": "httpp.Server handler chain", "path": p, "reached_application_handler": passed, "status": status, "panic": panicked},
+				fmt.Sprintf("filter-chain/%s/passed=%v", class, passed), passed)
+			continue
 		}
 		passed, status, panicked := vC35FilterCall(p)
 		if !panicked && passed == (status == http.StatusBadRequest) {
